@@ -202,7 +202,7 @@ func ParsePAPPacket(data []byte) (code uint8, id uint8, payload []byte, err erro
 	code = data[0]
 	id = data[1]
 	length := binary.BigEndian.Uint16(data[2:4])
-	if int(length) > len(data) {
+	if int(length) < 4 || int(length) > len(data) {
 		return 0, 0, nil, ErrShortPacket
 	}
 	return code, id, data[4:length], nil
@@ -215,7 +215,7 @@ func ParseCHAPPacket(data []byte) (code uint8, id uint8, payload []byte, err err
 	code = data[0]
 	id = data[1]
 	length := binary.BigEndian.Uint16(data[2:4])
-	if int(length) > len(data) {
+	if int(length) < 4 || int(length) > len(data) {
 		return 0, 0, nil, ErrShortPacket
 	}
 	return code, id, data[4:length], nil
